@@ -96,6 +96,7 @@ impl J {
 // ---------------------------------------------------------------------------------------------
 struct Cx<'tcx> {
     tcx: TyCtxt<'tcx>,
+    ext_adts: std::cell::RefCell<std::collections::BTreeMap<String, J>>,
 }
 
 fn tystr(t: Ty<'_>) -> String {
@@ -105,6 +106,25 @@ fn tystr(t: Ty<'_>) -> String {
 impl<'tcx> Cx<'tcx> {
     fn path(&self, d: DefId) -> String {
         with_no_trimmed_paths!(self.tcx.def_path_str(d))
+    }
+
+    /// remember the variant table of every enum whose discriminant is read or that is constructed
+    fn note_adt(&self, t: Ty<'tcx>) {
+        if let ty::Adt(adt, _) = t.kind() {
+            if !adt.is_enum() {
+                return;
+            }
+            let p = self.path(adt.did());
+            if self.ext_adts.borrow().contains_key(&p) {
+                return;
+            }
+            let mut vs = Vec::new();
+            for (vi, v) in adt.variants().iter_enumerated() {
+                let discr = format!("{}", adt.discriminant_for_variant(self.tcx, vi).val);
+                vs.push(J::Obj(vec![("name", s(v.name.as_str())), ("discr", s(discr)), ("idx", n(vi.as_u32())), ("nfields", n(v.fields.len()))]));
+            }
+            self.ext_adts.borrow_mut().insert(p.clone(), J::Obj(vec![("path", s(p)), ("krate", s(self.tcx.crate_name(adt.did().krate).as_str())), ("variants", J::Arr(vs))]));
+        }
     }
 
     fn loc(&self, sp: Span) -> String {
@@ -340,6 +360,11 @@ impl<'tcx> Cx<'tcx> {
                 ("ty", s(tystr(a.ty(body, self.tcx)))),
             ]),
             mir::Rvalue::UnaryOp(op, a) => J::Obj(vec![("k", s("unop")), ("op", s(format!("{:?}", op))), ("a", self.operand(body, a, env))]),
+            mir::Rvalue::Discriminant(p) => {
+                self.note_adt(p.ty(body, self.tcx).ty);
+                self.rvalue_discr(body, p)
+            }
+            #[allow(unreachable_patterns)]
             mir::Rvalue::Discriminant(p) => J::Obj(vec![("k", s("discr")), ("place", self.place(body, p)), ("ty", s(tystr(p.ty(body, self.tcx).ty)))]),
             mir::Rvalue::Aggregate(box kind, fields) => {
                 let mut o = vec![("k", s("aggr"))];
@@ -351,6 +376,10 @@ impl<'tcx> Cx<'tcx> {
                     mir::AggregateKind::Tuple => o.push(("agg", s("tuple"))),
                     mir::AggregateKind::Adt(d, vi, args, _, _) => {
                         let adt = self.tcx.adt_def(*d);
+                        if adt.is_enum() {
+                            self.note_adt(self.tcx.type_of(*d).instantiate_identity().skip_norm_wip());
+                        }
+                        o.push(("vi", n(vi.as_u32())));
                         let v = adt.variant(*vi);
                         o.push(("agg", s("adt")));
                         o.push(("adt", s(self.path(*d))));
@@ -374,6 +403,15 @@ impl<'tcx> Cx<'tcx> {
             mir::Rvalue::ThreadLocalRef(d) => J::Obj(vec![("k", s("threadlocal")), ("def", s(self.path(*d)))]),
             other => J::Obj(vec![("k", s("other")), ("dbg", s(format!("{:?}", other)))]),
         }
+    }
+
+    fn rvalue_discr(&self, body: &mir::Body<'tcx>, p: &mir::Place<'tcx>) -> J {
+        let t = p.ty(body, self.tcx).ty;
+        let adt = match t.kind() {
+            ty::Adt(a, _) => self.path(a.did()),
+            _ => String::new(),
+        };
+        J::Obj(vec![("k", s("discr")), ("place", self.place(body, p)), ("ty", s(tystr(t))), ("adt", s(adt))])
     }
 
     fn callee(&self, body_did: Option<DefId>, func: &mir::Operand<'tcx>, body: &mir::Body<'tcx>, env: TypingEnv<'tcx>) -> J {
@@ -641,7 +679,7 @@ impl<'tcx, 'a> rustc_hir::intravisit::Visitor<'tcx> for UnsafeFinder<'tcx, 'a> {
 }
 
 fn extract(tcx: TyCtxt<'_>) -> String {
-    let cx = Cx { tcx };
+    let cx = Cx { tcx, ext_adts: Default::default() };
     let mut top: Vec<(&'static str, J)> = Vec::new();
     top.push(("crate", s(tcx.crate_name(rustc_hir::def_id::LOCAL_CRATE).as_str())));
     top.push(("crate_types", J::Arr(tcx.crate_types().iter().map(|t| s(format!("{:?}", t))).collect())));
@@ -763,6 +801,8 @@ fn extract(tcx: TyCtxt<'_>) -> String {
         bodies.push(J::Obj(o));
     }
     top.push(("bodies", J::Arr(bodies)));
+    let ext: Vec<J> = std::mem::take(&mut *cx.ext_adts.borrow_mut()).into_values().collect();
+    top.push(("enum_tables", J::Arr(ext)));
     let mut out = String::new();
     J::Obj(top).write(&mut out);
     out
